@@ -134,6 +134,15 @@ def other_operations(chk, th):
                 tot[0] = c + d
                 tot[0].ps(0, 0.5); tot[0].compress_mode_swaps(); tot[0].remove_non_adjacent_bs(); tot[0].unpack_groups()
             guarded("a + b then edits of the sum, " + name, {name: c, "d": d}, [], plus_then_edit)
+
+            def iadd_through_alias():
+                # `t += d` on a name that aliases c: the name is rebound to the sum, c itself (still held by the caller) is not an
+                # operation target and must stay as it was; the same for d
+                t = c
+                t += d
+                t += t
+                t.ps(0, 0.25)
+            guarded("t = x; t += d (augmented assignment through an alias), x = " + name, {name: c, "d": d}, [], iadd_through_alias)
         # the circuit as the ARGUMENT of add (grouped and not, twice, onto a parent that already owns an ancilla)
         for grp in (True, False):
             def add_twice():
